@@ -323,6 +323,8 @@ type 'a res =
 
 val bind : 'a1 res -> ('a1 -> 'a2 res) -> 'a2 res
 
+val is_ok : 'a1 res -> bool
+
 val get : 'a1 list -> nat -> 'a1 res
 
 val set_nth : 'a1 list -> nat -> 'a1 -> 'a1 list res
@@ -2693,6 +2695,40 @@ val as_rline : val0 -> rline
 
 val dispatch_itemview : z -> val0 -> val0 option
 
+type jread =
+| JNone
+| JSlice of nat * nat
+
+val jread_safeb : nat -> jread -> bool
+
+val take_res : str -> nat -> str res
+
+val drop_res : str -> nat -> str res
+
+val slice2 : str -> nat -> nat -> str res
+
+val jump_label_with :
+  (nat -> nat -> bool) -> str -> nat -> nat -> str option res
+
+val rows_res : (nat -> 'a1 res) -> nat -> nat -> 'a1 list res
+
+val jump_frame_with :
+  (nat -> nat -> bool) -> str -> nat -> nat -> str option list res
+
+val jump_frame : str -> nat -> nat -> str option list res
+
+val jump_frame_le : str -> nat -> nat -> str option list res
+
+val jump_reads_with : (nat -> nat -> bool) -> nat -> nat -> jread list
+
+val index_of : z -> str -> nat -> nat option
+
+val jump_pick : str -> z -> nat -> nat -> nat -> nat option
+
+val v_labels : str option list res -> val0
+
+val dispatch_jump : z -> val0 -> val0 option
+
 type 'item result = 'item * z
 
 val matches_of :
@@ -4741,6 +4777,102 @@ val d_tiebreak : val0 -> val0
 
 val dispatch_rank : z -> val0 -> val0 option
 
+val is_blank2 : z -> bool
+
+val non_blank : z -> bool
+
+val span2 : ('a1 -> bool) -> 'a1 list -> 'a1 list * 'a1 list
+
+val awk_fields_from : nat -> str -> str list
+
+val awk_lead : str -> str
+
+val awk_fields0 : str -> str list
+
+val is_prefix0 : str -> str -> bool
+
+val split_after_go0 : str -> nat -> str -> str -> str list
+
+val split_after1 : str -> str -> str list
+
+val split_by_from : nat -> (nat * nat) list -> str -> str list
+
+val split_by : (nat * nat) list -> str -> str list
+
+val locs_wfb : nat -> nat -> (nat * nat) list -> bool
+
+val offsets : nat -> str list -> nat list
+
+val nat_list_eqb : nat list -> nat list -> bool
+
+val partition_ok : str -> str -> str list -> nat list -> bool
+
+type fexpr0 =
+| FIdx of z
+| FRange of z option * z option
+
+val resolve0 : z -> z -> z
+
+val sel_bounds : fexpr0 -> z -> z * z
+
+val select_fields0 : fexpr0 -> 'a1 list -> 'a1 list
+
+val select_first : fexpr0 -> nat -> nat
+
+val select_text : fexpr0 -> str list -> str
+
+val select_start : fexpr0 -> nat -> str list -> nat
+
+val digits_of : nat -> z -> str -> str
+
+val digits : z -> str
+
+val itoa2 : z -> str
+
+val dOT0 : z
+
+val print_fexpr : fexpr0 -> str
+
+val is_space1 : z -> bool
+
+val trim_right1 : (z -> bool) -> str -> str
+
+val trim_both : (z -> bool) -> str -> str
+
+val inside_selection : fexpr0 -> nat -> str list -> nat -> nat -> bool
+
+val without_suffix : str -> str -> str option
+
+val strip_literal : str -> str -> str
+
+val strip_occurrence : (nat * nat) list -> str -> str
+
+type dspec =
+| DSAwk
+| DSLiteral of str
+| DSRegexp of (str -> (nat * nat) list)
+
+val strip_delim : dspec -> str -> str
+
+val output_text : dspec -> str -> str
+
+val fields_text : fexpr0 list -> str list -> str
+
+val map_last_pure : ('a1 -> 'a1) -> 'a1 list -> 'a1 list
+
+val search_texts : dspec -> fexpr0 list -> str list -> str list
+
+type tpart0 =
+| TLit0 of str
+| TIndex1
+| TFields0 of fexpr0 list
+
+val render_part : dspec -> str list -> z -> tpart0 -> str
+
+val render_template : dspec -> str list -> z -> tpart0 list -> str
+
+val placeholder_text : dspec -> bool -> fexpr0 list -> str list -> str
+
 val nLB : z
 
 val nUL : z
@@ -4769,7 +4901,29 @@ val filter_listing : bool -> bool -> nat -> nat -> str -> item5 list
 
 val session_views : bool -> nat -> nat -> str list -> item5 list list
 
-type slice2 = { sl_buf : nat; sl_off : nat; sl_len : nat }
+val contains0 : str -> str -> bool
+
+type fdelim =
+| FAwk0
+| FLit of str
+
+val fields_of0 : fdelim -> str -> str list
+
+val dspec_of : fdelim -> dspec
+
+type scope =
+| SWhole
+| SNth of fexpr0 list
+| SWithNth of fexpr0 list
+
+val searched : fdelim -> scope -> str -> str list
+
+val found : fdelim -> scope -> str -> str -> bool
+
+val query_listing :
+  bool -> bool -> nat -> nat -> fdelim -> scope -> str -> str -> item5 list
+
+type slice3 = { sl_buf : nat; sl_off : nat; sl_len : nat }
 
 type mem0 = str list
 
@@ -4781,7 +4935,7 @@ val overwrite : 'a1 list -> 'a1 list -> 'a1 list res
 
 val write_off : nat -> 'a1 list -> 'a1 list -> 'a1 list res
 
-val deref : mem0 -> slice2 -> str res
+val deref : mem0 -> slice3 -> str res
 
 val write_at : mem0 -> nat -> nat -> str -> mem0 res
 
@@ -4791,9 +4945,9 @@ val cR : z
 
 val index_byte1 : str -> z -> nat option
 
-type fstate = { f_mem : mem0; f_left : str; f_items : slice2 list }
+type fstate = { f_mem : mem0; f_left : str; f_items : slice3 list }
 
-val emit0 : fstate -> slice2 -> fstate res
+val emit0 : fstate -> slice3 -> fstate res
 
 val scan_buf : nat -> z -> bool -> nat -> nat -> str -> fstate -> fstate res
 
@@ -4802,13 +4956,13 @@ val read_retry : nat -> nat -> nat -> str -> nat list -> str * nat list
 val read_tries : nat
 
 val feed_loop :
-  nat -> nat -> nat -> z -> bool -> str -> nat list -> slice2 -> fstate ->
+  nat -> nat -> nat -> z -> bool -> str -> nat list -> slice3 -> fstate ->
   fstate res
 
 val feed :
-  nat -> nat -> z -> bool -> str -> nat list -> (mem0 * slice2 list) res
+  nat -> nat -> z -> bool -> str -> nat list -> (mem0 * slice3 list) res
 
-val deref_all0 : mem0 -> slice2 list -> str list res
+val deref_all0 : mem0 -> slice3 list -> str list res
 
 val feed_records : nat -> nat -> z -> bool -> str -> nat list -> str list res
 
@@ -4929,13 +5083,23 @@ val d_session : val0 -> val0
 
 val d_session_views : val0 -> val0
 
+val as_optz6 : val0 -> z option
+
+val as_fexpr6 : val0 -> fexpr0
+
+val as_fdelim : val0 -> fdelim
+
+val as_scope : val0 -> scope
+
+val d_query_listing : val0 -> val0
+
 val dispatch_record : z -> val0 -> val0 option
 
 val changed_items : str list -> (z * str) list -> z list
 
 val prefixb0 : str -> str -> bool
 
-val contains0 : str -> str -> bool
+val contains1 : str -> str -> bool
 
 val substr_filter : str -> z -> str list -> z list
 
@@ -4998,7 +5162,7 @@ val gT : z
 
 val lT : z
 
-val dOT0 : z
+val dOT1 : z
 
 val dASH0 : z
 
@@ -5375,6 +5539,32 @@ val d_run_d : cfg1 -> hdr -> dterm -> dupd list -> val0 list
 
 val dispatch_render : z -> val0 -> val0 option
 
+type qact =
+| QSearch of str
+| QEdit of str
+
+val line_step : str -> qact -> str
+
+val line_after : str -> qact list -> str
+
+val unchanged : str -> qact list -> bool
+
+val search_str : str -> qact list -> str option
+
+val query_in_effect : str -> qact list -> str
+
+type tq = { tq_input : str; tq_over : str option }
+
+val tq_action : tq -> qact -> tq
+
+val tq_run : tq -> qact list -> tq
+
+val tq_Input : tq -> str
+
+val as_qact : val0 -> qact
+
+val dispatch_searchstr : z -> val0 -> val0 option
+
 type rev2 =
 | RLock
 | RUnlock
@@ -5668,53 +5858,53 @@ type tcell = z list
 
 type tmem = tcell list
 
-type slice3 = { sl_cell : nat; sl_off0 : nat; sl_len0 : nat }
+type slice4 = { sl_cell : nat; sl_off0 : nat; sl_len0 : nat }
 
 val mem_alloc : tmem -> tcell -> tmem * nat
 
-val sl_cap : tmem -> slice3 -> nat res
+val sl_cap : tmem -> slice4 -> nat res
 
-val sl_read : tmem -> slice3 -> z list res
+val sl_read : tmem -> slice4 -> z list res
 
-val sl_sub : tmem -> slice3 -> nat -> nat -> slice3 res
+val sl_sub : tmem -> slice4 -> nat -> nat -> slice4 res
 
 val cell_write : tcell -> nat -> z list -> tcell
 
-val sl_append : tmem -> slice3 -> z list -> (tmem * slice3) res
+val sl_append : tmem -> slice4 -> z list -> (tmem * slice4) res
 
-val sl_set : tmem -> slice3 -> nat -> z -> tmem res
+val sl_set : tmem -> slice4 -> nat -> z -> tmem res
 
-val copy_runes : tmem -> slice3 -> (tmem * slice3) res
+val copy_runes : tmem -> slice4 -> (tmem * slice4) res
 
-val nil_slice : tmem -> tmem * slice3
+val nil_slice : tmem -> tmem * slice4
 
-type chars = { ch_bytes : bool; ch_sl : slice3 }
+type chars = { ch_bytes : bool; ch_sl : slice4 }
 
 val chars_text : tmem -> chars -> z list res
 
-val chars_to_runes : tmem -> chars -> (tmem * slice3) res
+val chars_to_runes : tmem -> chars -> (tmem * slice4) res
 
-val owned_text : bool -> tmem -> chars -> (tmem * slice3) res
+val owned_text : bool -> tmem -> chars -> (tmem * slice4) res
 
 val split_lines : z list -> nat -> nat -> nat -> z -> (nat * nat) list * nat
 
-val sub_all : tmem -> slice3 -> (nat * nat) list -> slice3 list res
+val sub_all : tmem -> slice4 -> (nat * nat) list -> slice4 list res
 
 val wrap_line0 :
-  (z list -> z -> z -> nat option) -> nat -> tmem -> slice3 -> bool -> bool
-  -> slice3 list -> z -> z -> z -> z -> ((tmem * slice3 list) * bool) res
+  (z list -> z -> z -> nat option) -> nat -> tmem -> slice4 -> bool -> bool
+  -> slice4 list -> z -> z -> z -> z -> ((tmem * slice4 list) * bool) res
 
 val wrap_all :
-  (z list -> z -> z -> nat option) -> tmem -> slice3 list -> slice3 list -> z
-  -> z -> z -> z -> ((tmem * slice3 list) * bool) res
+  (z list -> z -> z -> nat option) -> tmem -> slice4 list -> slice4 list -> z
+  -> z -> z -> z -> ((tmem * slice4 list) * bool) res
 
 val chars_lines :
   (z list -> z -> z -> nat option) -> bool -> tmem -> chars -> bool -> z -> z
-  -> z -> z -> ((tmem * slice3 list) * bool) res
+  -> z -> z -> ((tmem * slice4 list) * bool) res
 
 val item_lines0 :
   (z list -> z -> z -> nat option) -> bool -> tmem -> chars -> bool -> bool
-  -> z -> z -> z -> z -> ((tmem * slice3 list) * bool) res
+  -> z -> z -> z -> z -> ((tmem * slice4 list) * bool) res
 
 type pop =
 | PSub of nat * nat * nat
@@ -5722,11 +5912,11 @@ type pop =
 | PAppS of nat * nat
 | PSet of nat * nat * z
 
-val reg : slice3 list -> nat -> slice3 res
+val reg : slice4 list -> nat -> slice4 res
 
-val pstep0 : tmem -> slice3 list -> pop -> (tmem * slice3 list) res
+val pstep0 : tmem -> slice4 list -> pop -> (tmem * slice4 list) res
 
-val prun : tmem -> slice3 list -> pop list -> (tmem * slice3 list) res
+val prun : tmem -> slice4 list -> pop list -> (tmem * slice4 list) res
 
 val wide : z -> bool
 
@@ -5736,111 +5926,15 @@ val simple_ovf : z list -> z -> z -> nat option
 
 val as_pop : val0 -> pop
 
-val v_read : tmem -> slice3 -> val0
+val v_read : tmem -> slice4 -> val0
 
-val v_line : tmem -> slice3 -> val0
+val v_line : tmem -> slice4 -> val0
 
 val d_textmem : val0 -> val0
 
 val as_rep : val0 -> z * str
 
 val dispatch_textstore : z -> val0 -> val0 option
-
-val is_blank2 : z -> bool
-
-val non_blank : z -> bool
-
-val span2 : ('a1 -> bool) -> 'a1 list -> 'a1 list * 'a1 list
-
-val awk_fields_from : nat -> str -> str list
-
-val awk_lead : str -> str
-
-val awk_fields0 : str -> str list
-
-val is_prefix0 : str -> str -> bool
-
-val split_after_go0 : str -> nat -> str -> str -> str list
-
-val split_after1 : str -> str -> str list
-
-val split_by_from : nat -> (nat * nat) list -> str -> str list
-
-val split_by : (nat * nat) list -> str -> str list
-
-val locs_wfb : nat -> nat -> (nat * nat) list -> bool
-
-val offsets : nat -> str list -> nat list
-
-val nat_list_eqb : nat list -> nat list -> bool
-
-val partition_ok : str -> str -> str list -> nat list -> bool
-
-type fexpr0 =
-| FIdx of z
-| FRange of z option * z option
-
-val resolve0 : z -> z -> z
-
-val sel_bounds : fexpr0 -> z -> z * z
-
-val select_fields0 : fexpr0 -> 'a1 list -> 'a1 list
-
-val select_first : fexpr0 -> nat -> nat
-
-val select_text : fexpr0 -> str list -> str
-
-val select_start : fexpr0 -> nat -> str list -> nat
-
-val digits_of : nat -> z -> str -> str
-
-val digits : z -> str
-
-val itoa2 : z -> str
-
-val dOT1 : z
-
-val print_fexpr : fexpr0 -> str
-
-val is_space1 : z -> bool
-
-val trim_right1 : (z -> bool) -> str -> str
-
-val trim_both : (z -> bool) -> str -> str
-
-val inside_selection : fexpr0 -> nat -> str list -> nat -> nat -> bool
-
-val without_suffix : str -> str -> str option
-
-val strip_literal : str -> str -> str
-
-val strip_occurrence : (nat * nat) list -> str -> str
-
-type dspec =
-| DSAwk
-| DSLiteral of str
-| DSRegexp of (str -> (nat * nat) list)
-
-val strip_delim : dspec -> str -> str
-
-val output_text : dspec -> str -> str
-
-val fields_text : fexpr0 list -> str list -> str
-
-val map_last_pure : ('a1 -> 'a1) -> 'a1 list -> 'a1 list
-
-val search_texts : dspec -> fexpr0 list -> str list -> str list
-
-type tpart0 =
-| TLit0 of str
-| TIndex1
-| TFields0 of fexpr0 list
-
-val render_part : dspec -> str list -> z -> tpart0 -> str
-
-val render_template : dspec -> str list -> z -> tpart0 list -> str
-
-val placeholder_text : dspec -> bool -> fexpr0 list -> str list -> str
 
 type token = { t_text0 : str; t_prefix : z }
 
@@ -5851,7 +5945,7 @@ type delimiter =
 
 val is_awk : delimiter -> bool
 
-val slice4 : str -> nat -> nat -> str res
+val slice5 : str -> nat -> nat -> str res
 
 val with_prefix_lengths : str list -> z -> token list
 
@@ -5872,7 +5966,7 @@ val has_prefix3 : str -> str -> bool
 
 val has_suffix3 : str -> str -> bool
 
-val contains1 : str -> str -> bool
+val contains2 : str -> str -> bool
 
 val trim_suffix2 : str -> str -> str
 
